@@ -228,9 +228,9 @@ ben("c03-benign-push-e", ["C03"], "src/backend/postgres/query.rs",
         write!(buffer, "'{escaped}'").unwrap()""")
 
 # ---- C06 -------------------------------------------------------------------------------------------------------
-brk("c06-add-drop-negate", ["C06"], "src/query/condition.rs", "            if c.conditions.len() == 1 && !c.negate {", "            if c.conditions.len() == 1 {", "C06.R1:add:unwrap:guard")
+brk("c06-add-drop-negate", ["C06"], "src/query/condition.rs", "            if c.conditions.len() == 1 && !c.negate {", "            if c.conditions.len() == 1 {", "C06.R1:add:")
 brk("c06-merge-any-addition", ["C06"], "src/query/condition.rs",
-    "                    if addition.condition_type == ConditionType::All && !addition.negate {", "                    if !addition.negate {", "C06.R2:add_condition:concat:guard")
+    "                    if addition.condition_type == ConditionType::All && !addition.negate {", "                    if !addition.negate {", "C06.R2:add_condition:")
 brk("c06-swap-empty-constants", ["C06"], "src/query/condition.rs",
     """                ConditionType::Any => false.into(),
                 ConditionType::All => true.into(),""",
